@@ -238,7 +238,8 @@ theorem encodesPrim_ne_null (t : Ty) (raw : Str) (v : V) (h : encodesPrim t raw 
     · cases h; rfl
     · split at h
       · cases h
-      · split at h <;> (simp only [Option.map_eq_some_iff] at h; obtain ⟨_, _, rfl⟩ := h; rfl)
+      · unfold readHalf at h
+        split at h <;> (simp only [Option.map_eq_some_iff] at h; obtain ⟨_, _, rfl⟩ := h; rfl)
   · obtain ⟨_, _, rfl⟩ := h; rfl
   · cases h
   · cases h
